@@ -259,7 +259,7 @@ func (x *Exec) mergeStates(a, b *State) *State {
 		it := MergeTerm(g, ta, tb)
 		if (it.Op == "ite" && len(it.String()) > 400) || len(it.String()) > 1500 {
 			f := x.sym.Fresh("m_"+hint, ta.Sort)
-			m.pc = append(m.pc, Implies(ga, Eq(f, ta)), Implies(Not(ga), Eq(f, tb)))
+			m.pc = append(m.pc, Implies(g, Eq(f, ta)), Implies(Not(g), Eq(f, tb)))
 			return f
 		}
 		return it
@@ -297,7 +297,7 @@ func (x *Exec) mergeStates(a, b *State) *State {
 			// level of whole heaps, so that spec functions applied to
 			// whole arrays are seen to agree on the branch that did
 			// not write (no extensionality reasoning needed).
-			m.pc = append(m.pc, Implies(ga, Eq(mh, ha)), Implies(Not(ga), Eq(mh, hb)))
+			m.pc = append(m.pc, Implies(g, Eq(mh, ha)), Implies(Not(g), Eq(mh, hb)))
 		}
 	}
 	if cp == len(a.chain) && cp == len(b.chain) && a.allocOff == b.allocOff {
@@ -358,12 +358,20 @@ func wfSlice(s, alloc *Term) *Term {
 func (x *Exec) elemHeapOf(st *State, elem *Ty) (string, *Term) {
 	es := x.w.sortOf(elem, x.model)
 	n, hs := elemHeap(es)
+	if x.heapElemTy == nil {
+		x.heapElemTy = map[string]*Ty{}
+	}
+	x.heapElemTy[n] = elem
 	return n, x.heap(st, n, hs)
 }
 
 func (x *Exec) ptrHeapOf(st *State, pointee *Ty) (string, *Term) {
 	ps := x.w.sortOf(pointee, x.model)
 	n, hs := ptrHeap(ps)
+	if x.heapElemTy == nil {
+		x.heapElemTy = map[string]*Ty{}
+	}
+	x.heapElemTy[n] = pointee
 	return n, x.heap(st, n, hs)
 }
 
